@@ -352,7 +352,6 @@ func (c *Ctx) pos(p token.Pos) string {
 	return fmt.Sprintf("%s:%d", relPath(c.RepoDir, pp.Filename), pp.Line)
 }
 
-
 // forwardedParam: parameters of an outlined body (see aliasOutlinedBodies) → the value the forwarder passes; path() prints the
 // latter, so `senderErr` inside pipeRecv reads as s.senderErr.
 var forwardedParam = map[*ssa.Parameter]ssa.Value{}
